@@ -36,7 +36,7 @@ def _has_hook(ffuzzy):
         return False
 
 
-def build(repo=None):
+def build(repo=None, features=None):
     """Materialise and build the replay crate against <repo>/ffuzzy.
 
     Returns (path of the binary or None, note)."""
@@ -49,10 +49,13 @@ def build(repo=None):
     ffuzzy = os.path.abspath(os.path.join(repo, 'ffuzzy'))
     if not os.path.exists(os.path.join(ffuzzy, 'Cargo.toml')):
         return None, 'no crate at %s' % ffuzzy
-    work = os.path.join(extract.CACHE, 'replay-work')
+    suffix = ('-' + '-'.join(features)) if features else ''
+    work = os.path.join(extract.CACHE, 'replay-work' + suffix)
     os.makedirs(work, exist_ok=True)
     with open(template) as fh:
         manifest = fh.read().replace('@FFUZZY_PATH@', ffuzzy).replace('@SRC_MAIN@', main_rs)
+    if features:
+        manifest = manifest.replace('path = "%s" }' % ffuzzy, 'path = "%s", features = [%s] }' % (ffuzzy, ', '.join('"%s"' % f for f in features)))
     mpath = os.path.join(work, 'Cargo.toml')
     old = None
     if os.path.exists(mpath):
@@ -68,7 +71,7 @@ def build(repo=None):
             pass
     env = dict(os.environ)
     env['CARGO_NET_OFFLINE'] = 'true'
-    target = os.path.join(extract.CACHE, 'replay-target')
+    target = os.path.join(extract.CACHE, 'replay-target' + suffix)
     env['CARGO_TARGET_DIR'] = target
     flags = env.get('RUSTFLAGS', '')
     if _has_hook(ffuzzy) and 'a4lg_ffuzzy_verif' not in flags:
@@ -96,6 +99,27 @@ def run(binary, args, timeout):
     except subprocess.TimeoutExpired:
         return None
     return p
+
+
+def explore_feature_build(features, pids, seconds, seed=0):
+    """Bounded exploration (NOT a proof): build the replay program against the tree with the given cargo features and run the
+    independent oracles of the listed properties for `seconds` each.  Returns (found_text or None, report list)."""
+    binary, note = build(features=features)
+    rep = []
+    if binary is None:
+        return None, [{'features': features, 'note': note}]
+    for pid in pids:
+        p = run(binary, [pid, int(seed) & 0xFFFFFFFFFFFFFFFF, seconds], seconds + 120)
+        if p is None:
+            rep.append({'features': features, 'property': pid, 'result': 'timeout'})
+            continue
+        out = p.stdout
+        if 'FAILING-INPUT' in out:
+            rep.append({'features': features, 'property': pid, 'result': 'disagreement'})
+            return out[out.index('FAILING-INPUT'):][:6000], rep
+        last = out.strip().split('\n')[-1][:200] if out.strip() else 'explored 0 inputs'
+        rep.append({'features': features, 'property': pid, 'result': last})
+    return None, rep
 
 
 def find_failing_input(pid, violations, tier, seed):
